@@ -275,8 +275,22 @@ def extraction_rule(ctx, p, K0):
     rets = [r for r in wire.returns_of(g) if isinstance(r.value, ast.Call)]
     ok = len(rets) == 1 and norm_text(rets[0].value.args[0] if rets[0].value.args else wire.kw(rets[0].value).get("region")) == "(y0, y1, x0, x1)"
     none_ret = [r for r in wire.returns_of(g) if norm_text(r.value) == "None"]
-    tests = [norm_text(i.test) for r in none_ret for i, t in wire.enclosing_branches(g, r) if t]
-    ctx.ob(rule, g.key + ":result", ok and "None in [y0, y1, x0, x1]" in tests and "original_region is None" in tests, where=g, node=g.node, construct=str(tests), message="the result is Region2D((y0, y1, x0, x1)), absent when either axis has no overlap or the region was absent")
+    tests = [t_ for r in none_ret for t_, truth in wire.path_conds(g, r) if truth]
+    # the clipping routine answers (None, None) or a pair (decided above, ordering by ordering): an axis is absent iff either of its two components is None,
+    # so the absence test must look at >= 1 component of the row pair and >= 1 of the column pair, and at nothing else
+    import re as _re
+    looked = set()
+    tests = [part.strip() for t_ in tests for part in (t_.split(" or ") if " and " not in t_ else [t_])]   # a disjunction that holds: any of its parts makes the region absent
+    for t_ in tests:
+        m_ = _re.fullmatch(r"None in [\[(](.*)[\])]", t_)
+        if m_:
+            looked |= {x.strip() for x in m_.group(1).split(",")}
+        m_ = _re.fullmatch(r"(\w+) is None", t_)
+        if m_ and m_.group(1) != "original_region":
+            looked.add(m_.group(1))
+    pairs = [set(tg.strip("()").replace(" ", "").split(",")) for tg, _ in got if tg]
+    covers = len(pairs) == 2 and all(looked & pr for pr in pairs) and looked <= set().union(*pairs) and bad == 0 and total == 13
+    ctx.ob(rule, g.key + ":result", ok and covers and "original_region is None" in tests, where=g, node=g.node, construct=str(tests), message="the result is Region2D((y0, y1, x0, x1)), absent when either axis has no overlap or the region was absent")
     # layout level: every region of the layout is clipped by the same window
     c = p.cls("autoarray.layout.layout:Layout2D").lookup("layout_extracted_from")
     cs = wire.calls_to(p, c, g.key)
